@@ -10,6 +10,34 @@
 #include <vector>
 using namespace souffle;
 static bool g_compiled;   // use getBoundaries<k> (compiled path) instead of lower_bound (interpreter path)
+// closure of the inserted pairs (brute force)
+static std::set<std::pair<RamDomain, RamDomain>> closure(const std::vector<std::pair<RamDomain, RamDomain>>& ins) {
+    std::vector<RamDomain> el;
+    for (auto& p : ins) { el.push_back(p.first); el.push_back(p.second); }
+    std::set<std::pair<RamDomain, RamDomain>> c;
+    for (auto x : el) c.insert({x, x});
+    for (auto& p : ins) { c.insert(p); c.insert({p.second, p.first}); }
+    bool ch = true;
+    while (ch) {
+        ch = false;
+        for (auto& a : std::set<std::pair<RamDomain, RamDomain>>(c))
+            for (auto& b : std::set<std::pair<RamDomain, RamDomain>>(c))
+                if (a.second == b.first && c.insert({a.first, b.second}).second) ch = true;
+    }
+    return c;
+}
+template <typename R>
+static std::set<std::pair<RamDomain, RamDomain>> lookup(const R& rel, int b0, int b1, RamDomain v0, RamDomain v1) {
+    using T = Tuple<RamDomain, 2>;
+    std::set<std::pair<RamDomain, RamDomain>> got;
+    T low{b0 ? v0 : MIN_RAM_SIGNED, b1 ? v1 : MIN_RAM_SIGNED};
+    typename R::operation_hints ctxt;   // the generated code (EqRel.h) and the interpreter both pass their own hints object
+    if (!g_compiled) { for (auto it = rel.lower_bound(low, ctxt); it != rel.end(); ++it) got.insert({(*it)[0], (*it)[1]}); }
+    else if (b0 && b1) { for (auto& t : rel.template getBoundaries<2>(low, ctxt)) got.insert({t[0], t[1]}); }
+    else if (b0) { for (auto& t : rel.template getBoundaries<1>(low, ctxt)) got.insert({t[0], t[1]}); }
+    else { for (auto& t : rel.template getBoundaries<0>(low, ctxt)) got.insert({t[0], t[1]}); }
+    return got;
+}
 static int run(int b0, int b1, RamDomain v0, RamDomain v1, bool member) {
     using T = Tuple<RamDomain, 2>;
     EquivalenceRelation<T> rel;
@@ -19,25 +47,30 @@ static int run(int b0, int b1, RamDomain v0, RamDomain v1, bool member) {
     RamDomain p = 7, q = 8;
     while (p == v0 || p == v1 || p == w || q == v0 || q == v1 || q == w) { p += 10; q += 10; }
     rel.insert(p, q); inserted.push_back({p, q});
-    std::set<std::pair<RamDomain, RamDomain>> all, want, got;
-    for (auto it = rel.begin(); it != rel.end(); ++it) all.insert({(*it)[0], (*it)[1]});
-    for (auto& pr : all)
-        if ((!b0 || pr.first == v0) && (!b1 || pr.second == v1)) want.insert(pr);
-    T low{b0 ? v0 : MIN_RAM_SIGNED, b1 ? v1 : MIN_RAM_SIGNED};
-    if (!g_compiled) { for (auto it = rel.lower_bound(low); it != rel.end(); ++it) got.insert({(*it)[0], (*it)[1]}); }
-    else if (b0 && b1) { for (auto& t : rel.template getBoundaries<2>(low)) got.insert({t[0], t[1]}); }
-    else if (b0) { for (auto& t : rel.template getBoundaries<1>(low)) got.insert({t[0], t[1]}); }
-    else { for (auto& t : rel.template getBoundaries<0>(low)) got.insert({t[0], t[1]}); }
-    std::printf("[%s value] relation has %zu pairs; look-up should yield %zu pairs, real lower_bound range yields %zu; ", member ? "member" : "non-member", all.size(), want.size(), got.size());
-    if (got != want) { std::printf("WRONG RANGE\n"); return 1; }
+    int rc = 0;
+    // two look-ups: straight after the first insertions (the per-class lists have never been built), and again after the class of v0
+    // has grown (the lists built for the first look-up are stale).  Nothing else touches the relation in between.
+    for (int phase = 0; phase < 2; ++phase) {
+        if (phase == 1) {
+            RamDomain z = 900; while (z == v0 || z == v1 || z == w || z == p || z == q) z += 10;
+            if (member) { rel.insert(v0, z); inserted.push_back({v0, z}); } else { rel.insert(p, z); inserted.push_back({p, z}); }
+        }
+        std::set<std::pair<RamDomain, RamDomain>> want;
+        for (auto& pr : closure(inserted))
+            if ((!b0 || pr.first == v0) && (!b1 || pr.second == v1)) want.insert(pr);
+        auto got = lookup(rel, b0, b1, v0, v1);
+        std::printf("[%s value, look-up %d] closure of the inserted pairs yields %zu matching pairs, the real %s yields %zu; ", member ? "member" : "non-member", phase + 1,
+                want.size(), g_compiled ? "getBoundaries<k>(entry, hints)" : "lower_bound(entry, hints)", got.size());
+        if (got != want) { std::printf("WRONG RANGE\n"); rc = 1; } else std::printf("ok\n");
+    }
     // a look-up must not change the relation: grow it and compare with the closure of what was inserted
     RamDomain p2 = p + 100, q2 = q + 100;
     rel.insert(p2, q2); inserted.push_back({p2, q2});
-    std::set<std::pair<RamDomain, RamDomain>> after, ref;
+    std::set<std::pair<RamDomain, RamDomain>> after;
     for (auto it = rel.begin(); it != rel.end(); ++it) after.insert({(*it)[0], (*it)[1]});
-    for (auto& pr : inserted) { ref.insert({pr.first, pr.first}); ref.insert({pr.second, pr.second}); ref.insert(pr); ref.insert({pr.second, pr.first}); }
-    std::printf("after the look-up and one more insert: %zu pairs, closure of the inserted pairs has %zu\n", after.size(), ref.size());
-    return after == ref ? 0 : 1;
+    auto ref = closure(inserted);
+    std::printf("after the look-ups and one more insert: %zu pairs, closure of the inserted pairs has %zu\n", after.size(), ref.size());
+    return (after == ref ? 0 : 1) | rc;
 }
 int main(int argc, char** argv) {
     if (argc < 5) return 2;
